@@ -5,7 +5,8 @@ LEVEL_TEXT = ('Bounded symbolic model checking (CBMC) of the real Position code.
               'state (all 64 squares, all piece sets, keys, sums, counters symbolic; the representation invariant is assumed only on the squares the move can '
               'touch): frame + local invariant + exact deltas of every running sum + rules of chess + invariant preservation + bit-identical undo. By induction '
               'over histories of any length this gives "every incrementally maintained attribute equals its from-scratch value" without enumerating histories. '
-              'Signed-overflow checks on the lowered MatId arithmetic decide "no undefined behaviour for any material legal play can produce".')
+              'Signed-overflow checks on the lowered MatId arithmetic decide "no undefined behaviour for any material legal play can produce". The board-only pair makeMoveB/unMakeMoveB, '
+              'the single-square primitives, the from-scratch hash, the compact serialisation round trip into a reused object and the en-passant fix-up of the FEN reader are separate obligations.')
 ASSUMPTIONS = ['moves of pseudo-legal *shape* (piece geometry over-approximated for non-pawn, non-castling moves: a superset of what any generator emits; make/unmake do not depend on slider geometry)',
                'material counts: one king each, <= 8 pawns per side, promoted pieces <= missing pawns (everything legal play can produce)',
                'pieceValue[] symbolic in [0,20000]; half-move clock <= 100000, full-move counter <= 1000000',
@@ -54,6 +55,14 @@ def build(tier):
     for o in obs1:
         if o.oid.startswith('O4a-fixupEP'):
             o2 = copy.copy(o); o2.oid = 'O7' + o.oid[2:]
+            obs.append(o2)
+            if o.unit not in extra: extra.append(o.unit)
+    # ---- O8: the FEN reader's field scanner and en-passant pre-validation on fixed placements with arbitrary tails (C17-O2b re-run under this property: "FEN ... read back is identical")
+    from props import C17
+    units17, obs17 = C17.build(tier)
+    for o in obs17:
+        if o.oid.startswith('O2b-fen-tail'):
+            o2 = copy.copy(o); o2.oid = 'O8' + o.oid[3:]
             obs.append(o2)
             if o.unit not in extra: extra.append(o.unit)
     return [u] + extra, obs
